@@ -29,18 +29,22 @@ USLP_CLASS_NAMES = [
 # ---------------------------------------------------------------------------------------------
 # building objects from op dicts, reading fields back (public API only)
 # ---------------------------------------------------------------------------------------------
+_code = core.std_code    # int(code read back), after `code == Enum.NAME  <=>  it is the standard's code for NAME`
+
+
+def _m(E, v):
+    """the member an application writes for the code `v`: the member of E with the STANDARD NAME of the code
+    (core.std_member; `E(v)` for a code without a standard name, ValueError for a non-member as before)"""
+    return core.std_member(E, v, strict=True)
+
+
 def _rules(v):
-    try:
-        return TfdzConstructionRules(v)
-    except ValueError:
-        return v
+    # by standard name; a code without one: the member of that value, else the plain int (as before)
+    return core.std_member(TfdzConstructionRules, v)
 
 
 def _upid(v):
-    try:
-        return UslpProtocolIdentifier(v)
-    except ValueError:
-        return v
+    return core.std_member(UslpProtocolIdentifier, v)
 
 
 def _ft(v):
@@ -48,15 +52,15 @@ def _ft(v):
 
 
 def _thdr(a):
-    return TruncatedPrimaryHeader(scid=a["scid"], src_dest=SourceOrDestField(a["src_dest"]), vcid=a["vcid"],
+    return TruncatedPrimaryHeader(scid=a["scid"], src_dest=_m(SourceOrDestField, a["src_dest"]), vcid=a["vcid"],
                                   map_id=a["map_id"])
 
 
 def _phdr(a):
     return PrimaryHeader(
-        scid=a["scid"], src_dest=SourceOrDestField(a["src_dest"]), vcid=a["vcid"], map_id=a["map_id"],
-        frame_len=a["frame_len"], bypass_seq_ctrl_flag=BypassSequenceControlFlag(a["bypass"]),
-        prot_ctrl_cmd_flag=ProtocolCommandFlag(a["prot"]), op_ctrl_flag=bool(a["ocf"]),
+        scid=a["scid"], src_dest=_m(SourceOrDestField, a["src_dest"]), vcid=a["vcid"], map_id=a["map_id"],
+        frame_len=a["frame_len"], bypass_seq_ctrl_flag=_m(BypassSequenceControlFlag, a["bypass"]),
+        prot_ctrl_cmd_flag=_m(ProtocolCommandFlag, a["prot"]), op_ctrl_flag=bool(a["ocf"]),
         vcf_count_len=a["vcf_len"], vcf_count=a["vcf_count"])
 
 
@@ -65,14 +69,15 @@ def _header(a):
 
 
 def _thdr_fields(h):
-    return {"kind": "truncated", "scid": int(h.scid), "src_dest": int(h.src_dest), "vcid": int(h.vcid),
+    return {"kind": "truncated", "scid": int(h.scid), "src_dest": _code(SourceOrDestField, h.src_dest), "vcid": int(h.vcid),
             "map_id": int(h.map_id), "len": int(h.len())}
 
 
 def _phdr_fields(h):
-    return {"kind": "primary", "scid": int(h.scid), "src_dest": int(h.src_dest), "vcid": int(h.vcid),
-            "map_id": int(h.map_id), "frame_len": int(h.frame_len), "bypass": int(h.bypass_seq_ctrl_flag),
-            "prot": int(h.prot_ctrl_cmd_flag), "ocf": int(bool(h.op_ctrl_flag)), "vcf_len": int(h.vcf_count_len),
+    return {"kind": "primary", "scid": int(h.scid), "src_dest": _code(SourceOrDestField, h.src_dest), "vcid": int(h.vcid),
+            "map_id": int(h.map_id), "frame_len": int(h.frame_len),
+            "bypass": _code(BypassSequenceControlFlag, h.bypass_seq_ctrl_flag),
+            "prot": _code(ProtocolCommandFlag, h.prot_ctrl_cmd_flag), "ocf": int(bool(h.op_ctrl_flag)), "vcf_len": int(h.vcf_count_len),
             "vcf_count": None if h.vcf_count is None else int(h.vcf_count), "len": int(h.len())}
 
 
@@ -86,7 +91,7 @@ def _tfdf(a):
 
 
 def _tfdf_fields(t):
-    return {"rules": int(t.tfdz_contr_rules), "upid": int(t.uslp_ident),
+    return {"rules": _code(TfdzConstructionRules, t.tfdz_contr_rules), "upid": _code(UslpProtocolIdentifier, t.uslp_ident),
             "fhp": None if t.fhp_or_lvop is None else int(t.fhp_or_lvop), "tfdz": hx(t.tfdz),
             "len": int(t.len()), "header_len": int(t.header_len())}
 
@@ -529,6 +534,9 @@ class C17(Prop):
                 d.append(f"{en.__name__} members")
         if any(not (0 <= int(m) < 32) for m in UslpProtocolIdentifier):
             d.append("UslpProtocolIdentifier member outside 5 bits")
+        # every member the ops use BY NAME against the tables of the standard (a swap leaves the set of values intact)
+        d += core.std_table_diffs((SourceOrDestField, BypassSequenceControlFlag, ProtocolCommandFlag, TfdzConstructionRules,
+                                   UslpProtocolIdentifier))
         for n in USLP_CLASS_NAMES:
             c = getattr(udefs, n, None)
             if not (isinstance(c, type) and issubclass(c, Exception)):
